@@ -144,7 +144,11 @@ def maskWrite (r : Radio) (name : String) (mask v : Nat) : Radio × Nat :=
 def writeReg (r : Radio) (reg : Nat) (d : Bytes) : Radio :=
   let v := d.headD 0
   match reg with
-  | 0x00 => let (r, v) := r.maskWrite "CONFIG" 0x7F v; { r with config := v }
+  | 0x00 =>
+    let (r, v) := r.maskWrite "CONFIG" 0x7F v
+    -- the role (PRIM_RX) must only be changed with CE low; logged apart ("CE:" prefix)
+    let r := if r.ce ∧ (v &&& 1) ≠ (r.config &&& 1) then r.logViolation "CE:role-change-with-CE-high" else r
+    { r with config := v }
   | 0x01 => let (r, v) := r.maskWrite "EN_AA" 0x3F v; { r with enAA := v }
   | 0x02 => let (r, v) := r.maskWrite "EN_RXADDR" 0x3F v; { r with enRxAddr := v }
   | 0x03 =>
